@@ -365,9 +365,14 @@ def gen_joinbox(rng, lang, opts):
     for r in (0, 1):
         cs = []
         for v in range(nv):
-            if rng.random() < 0.8:
+            u = rng.random()
+            if u < 0.85:
+                # both bounds, or a half-open interval (only a lower / only an upper bound)
                 lo = rng.choice([0, 1, -1, 2, 5, -5, 10]); hi = lo + rng.choice([0, 0, 1, 2, 5])
-                cs.append(("le", ([(-1, v)], lo))); cs.append(("le", ([(1, v)], -hi)))
+                if u < 0.55 or u >= 0.70:
+                    cs.append(("le", ([(-1, v)], lo)))
+                if u < 0.70:
+                    cs.append(("le", ([(1, v)], -hi)))
         if rng.random() < 0.6:
             x, y = rng.sample(range(nv), 2)
             sx, sy = (rng.choice([1, -1]), rng.choice([1, -1])) if (lang == "oct" and rng.random() < 0.5) else (1, -1)
